@@ -9,10 +9,13 @@ impl CloseSyscall for Kernel {
 }
 /// EventLoops::del_event with one event loop == that loop's selector.del_event (net/mod.rs, event_loop.rs)
 fn del_event_stub(fd: c_int) -> std::io::Result<()> { c21::sel_del_event(fd) }
+/// waits are accepted for any pollable descriptor (pipes, eventfds): the close hook must clean up whatever kind it is
+fn is_socket_any(_fd: c_int) -> bool { kani::any() }
 
 #[kani::proof]
 #[kani::unwind(4)]
 #[kani::stub(crate::net::EventLoops::del_event, del_event_stub)]
+#[kani::stub(crate::syscall::is_socket, is_socket_any)]
 fn c21_close_step() {
     let st = c21::any_state_with_inv();
     let f: usize = kani::any(); kani::assume(f < 2);
